@@ -1,15 +1,17 @@
 import TpmVerif.Base.Trace
 import TpmVerif.Model.Tpm12Core
+import TpmVerif.Model.Tpm12Nv
 import TpmVerif.Spec.Tpm12Pcr
 /-! Correspondence checker for C20 traces: replays every traced operation (TPM_Extend, TPM_PCRRead, TPM_PCR_Reset,
     TPM_SHA1Start/Update/Complete/CompleteExtend, TPM_IO_Hash_*, TPM_IO_TpmEstablished_*, Startup, power cycle,
     suspend/resume) through `Model.Tpm12.Core.step` with the executable SHA-1 and reports every return code and
     every output byte string on which model and implementation differ. -/
 namespace TpmVerif.Check.C20
-open TpmVerif TpmVerif.Gen.Tpm12 TpmVerif.Model TpmVerif.Model.Tpm12.Core
+open TpmVerif TpmVerif.Gen.Tpm12 TpmVerif.Model TpmVerif.Model.Tpm12 TpmVerif.Model.Tpm12.Core
 
 structure CS where
   st : St := powerOn false TPM_BUFFER_MAX
+  nv : Nv.St := Nv.fresh
   rep : Report := {}
   line : Nat := 0
   live : Bool := false
@@ -23,7 +25,8 @@ def branch (c : CS) (b : String) : CS :=
 def parseOp (l : Line) : Option Op :=
   let loc := l.nat "loc"
   match l.str "name" with
-  | "startup" => some (.startup 1)
+  | "startup" => some (.startup ((l.nat? "st").getD 1))
+  | "savestate" => some .saveState
   | "extend" => some (.extend loc (l.nat "pcr") (l.bytes "d"))
   | "pcrread" => some (.pcrRead (l.nat "pcr"))
   | "pcrreset" => some (.pcrReset loc (l.bytes "sel"))
@@ -67,19 +70,119 @@ def sigOf (name : String) : String :=
   | "estget" | "estreset" => "SPEC[tpm-established] "
   | _ => ""
 
+/-! ### NV storage lines (`nv name=...`) -/
+
+def parseTag (l : Line) : Nv.Tag :=
+  match l.str "tag" with
+  | "auth1ok" => .auth1 true
+  | "auth1bad" => .auth1 false
+  | _ => .rqu
+
+def parseNv (l : Line) : Option Nv.Op :=
+  let tag := parseTag l
+  let loc := l.nat "loc"
+  let hw := l.nat "hw" ≠ 0
+  match l.str "name" with
+  | "define" => some (.define tag hw (l.nat "idx") (l.nat "attrs") (l.nat "size") (l.nat "lr") (l.nat "lw"))
+  | "write" => some (.write tag loc hw (l.nat "idx") (l.nat "off") (l.bytes "d"))
+  | "read" => some (.read tag loc hw (l.nat "idx") (l.nat "off") (l.nat "n"))
+  | "tscpp" => some (.tscPP (l.nat "v"))
+  | "getpub" => some (.getPub (l.nat "idx"))
+  | "savestate" => some .saveState
+  | _ => none
+
+def attrClass (a : Nat) : String :=
+  let bit (m : Nat) (n : String) : String := if Nv.has a m then n else ""
+  bit TPM_NV_PER_PPWRITE "Pw" ++ bit TPM_NV_PER_OWNERWRITE "Ow" ++ bit TPM_NV_PER_AUTHWRITE "Aw" ++ bit TPM_NV_PER_WRITEALL "All" ++
+  bit TPM_NV_PER_WRITEDEFINE "Wd" ++ bit TPM_NV_PER_WRITE_STCLEAR "Ws" ++ bit TPM_NV_PER_GLOBALLOCK "Gl" ++ bit TPM_NV_PER_PPREAD "Pr" ++
+  bit TPM_NV_PER_OWNERREAD "Or" ++ bit TPM_NV_PER_AUTHREAD "Ar" ++ bit TPM_NV_PER_READ_STCLEAR "Rs"
+
+def idxClass (i : Nat) : String :=
+  if i = TPM_NV_INDEX0 then "index0" else if i = TPM_NV_INDEX_LOCK then "lock" else if i = TPM_NV_INDEX_DIR then "dir"
+  else if i = TPM_NV_INDEX_TRIAL then "trial" else if 0x11200 ≤ i && i < 0x11210 then "pool" else "other"
+
+/-- coverage class of an NV operation: command, index class, tag, nvLocked, the area's lock state, model rc -/
+def nvBranch (s : Nv.St) (l : Line) (rc : Nat) : String :=
+  let name := l.str "name"
+  let idx := l.nat "idx"
+  let area := Nv.lookup s.mem idx
+  let lockSt := match area with
+    | some a => s!"{attrClass a.attrs}/rs={a.readSt}/ws={a.writeSt}/wd={a.writeDef}"
+    | none => "undefined"
+  match name with
+  | "define" => s!"nv-define/{idxClass idx}/{l.str "tag"}/locked={s.mem.nvLocked}/new={attrClass (l.nat "attrs")}/size0={decide (l.nat "size" = 0)}/old={lockSt}/gl={s.globalLock}/rc={rc}"
+  | "write" => s!"nv-write/{idxClass idx}/{l.str "tag"}/locked={s.mem.nvLocked}/{lockSt}/gl={s.globalLock}/len0={decide ((l.bytes "d").length = 0)}/rc={rc}"
+  | "read" => s!"nv-read/{idxClass idx}/{l.str "tag"}/locked={s.mem.nvLocked}/{lockSt}/n0={decide (l.nat "n" = 0)}/rc={rc}"
+  | "tscpp" => s!"nv-tscpp/v={l.nat "v"}/cmd={s.mem.ppCmd}/life={s.mem.ppLife}/lock={s.ppLock}/rc={rc}"
+  | "getpub" => s!"nv-getpub/{idxClass idx}/rc={rc}"
+  | _ => s!"nv-{name}/rc={rc}"
+
+def nvSig (name : String) : String :=
+  match name with
+  | "define" => "SPEC[nv-define] "
+  | "write" => "SPEC[nv-write] "
+  | "read" => "SPEC[nv-read] "
+  | "tscpp" => "SPEC[nv-physical-presence] "
+  | "getpub" => "SPEC[nv-public-flags] "
+  | "savestate" => "SPEC[nv-savestate] "
+  | _ => ""
+
+def bit (b : Bool) : UInt8 := if b then 1 else 0
+
+def stepNv (c : CS) (l : Line) : CS :=
+  let name := l.str "name"
+  let c := { c with rep := { c.rep with events := c.rep.events + 1 } }
+  let c := if l.nat "ret" ≠ 0 then mism c s!"{name}: TPMLIB_Process returned {l.nat "ret"}" else c
+  -- the failed state (entered through the TIS error routes, which only the PCR model follows) is one state of one TPM
+  let c := { c with nv := { c.nv with failed := c.nv.failed || c.st.failed } }
+  -- for the PCR/SHA-1 model an NV ordinal is "any other ordinal"
+  let c := { c with st := (Tpm12.Core.stepCmd Sha1.sha1 c.st (if name = "savestate" then .saveState else .other)).1 }
+  if name = "permflags" || name = "volflags" then
+    -- TPM_PERMANENT_FLAGS / TPM_STCLEAR_FLAGS as reported: the flags the NV model owns, at their positions in the structures
+    let s := Nv.invalidateSaved c.nv
+    let c := { c with nv := s }
+    let out := l.bytes "out"
+    let c := branch c s!"nv-{name}/rc={l.nat "rc"}"
+    let want := if s.postInit then TPM_INVALID_POSTINIT else if s.failed then TPM_FAILEDSELFTEST else 0
+    if l.nat "rc" ≠ want then mism c s!"SPEC[nv-flags] {name}: GetCapability rc model={want} impl={l.nat "rc"}" else
+    if want ≠ 0 then c else
+    let body := out.drop 4                   -- uint32 length, then the structure (tag, BOOLs)
+    let flag (k : Nat) : UInt8 := body.getD (2 + k) 0xee
+    if name = "permflags" then
+      let want := [bit s.mem.ppLife, bit s.mem.ppHw, bit s.mem.ppCmd, bit s.mem.nvLocked]
+      let got := [flag 6, flag 7, flag 8, flag 15]
+      if want ≠ got then mism c s!"SPEC[nv-flags] TPM_PERMANENT_FLAGS (physicalPresenceLifetimeLock, HWEnable, CMDEnable, nvLocked): model={hexOfBytes want} impl={hexOfBytes got}" else c
+    else
+      let want := [bit s.pp, bit s.ppLock, bit s.globalLock]
+      let got := [flag 2, flag 3, flag 4]
+      if want ≠ got then mism c s!"SPEC[nv-flags] TPM_STCLEAR_FLAGS (physicalPresence, physicalPresenceLock, bGlobalLock): model={hexOfBytes want} impl={hexOfBytes got}" else c
+  else
+  match parseNv l with
+  | none => mism c s!"unknown nv op {name}"
+  | some op =>
+    let (nv', obs) := Nv.step c.nv op
+    let c := branch c (nvBranch (Nv.invalidateSaved c.nv) l obs.rc)
+    let c := { c with nv := nv' }
+    let c := if l.nat "rc" ≠ obs.rc then mism c s!"{nvSig name}{name} {l.str "tag"} idx={l.nat "idx"}: rc model={obs.rc} impl={l.nat "rc"}" else c
+    if l.nat "rc" = 0 && obs.rc = 0 && l.bytes "out" ≠ obs.out then
+      mism c s!"{nvSig name}{name} idx={l.nat "idx"}: output model={hexOfBytes obs.out} impl={l.str "out"}"
+    else c
+
 def step (c : CS) (l : Line) : CS :=
   let c := { c with line := c.line + 1 }
   match l.kind with
   | "hist" => { c with live := false }
-  | "power" => { c with st := powerOn false (l.nat "maxbuf"), live := true }
+  | "power" => { c with st := powerOn false (l.nat "maxbuf"), nv := Nv.fresh, live := true }
   | "restart" =>
-      let c := branch c s!"restart/ret={l.nat "ret"}/failed={c.st.failed}/established={c.st.established}"
+      let c := branch c s!"restart/ret={l.nat "ret"}/failed={c.st.failed}/established={c.st.established}/saved={c.nv.saved.isSome}/nvlocked={c.nv.mem.nvLocked}"
       let c := if l.nat "ret" ≠ 0 then mism c s!"MainInit after Terminate returned {l.nat "ret"}" else c
-      { c with st := powerOn c.st.established (l.nat "maxbuf") }
+      { c with st := { powerOn c.st.established (l.nat "maxbuf") with saved := c.st.saved }, nv := Nv.powerCycle c.nv }
   | "resume" =>
       -- suspend/resume through the state blobs must preserve everything this model tracks
-      let c := branch c s!"resume/ret={l.nat "ret"}/thread={c.st.sha.isSome}/tis={c.st.tis.isSome}"
+      let c := branch c s!"resume/ret={l.nat "ret"}/thread={c.st.sha.isSome}/tis={c.st.tis.isSome}/saved={c.nv.saved.isSome}"
+      let c := { c with nv := Nv.resume c.nv }
       if l.nat "ret" ≠ 0 then mism c s!"SPEC[resume] GetState/SetState/MainInit returned {l.nat "ret"}" else c
+  | "nv" => if c.live then stepNv c l else c
   | "san" =>
       let c := { c with rep := { c.rep with events := c.rep.events + 1 } }
       mism c s!"SPEC[{l.str "sig"}] {l.str "kind"} report in {l.str "site"} while processing {l.str "req"} (history {l.str "hist"}, call {l.str "idx"})"
@@ -89,8 +192,16 @@ def step (c : CS) (l : Line) : CS :=
       | none => mism c s!"unknown op {l.str "name"}"
       | some op =>
         let c := { c with rep := { c.rep with events := c.rep.events + 1 } }
-        let (st', obs) := Tpm12.Core.step Sha1.sha1 c.st op
+        let (st', obs) := Tpm12.Core.stepCmd Sha1.sha1 c.st op
         let c := { c with st := st' }
+        -- for the NV model: Startup acts on the volatile NV flags; any other ordinal only invalidates the saved state
+        let c := match op with
+          | .startup t =>
+              let (nv', nobs) := Nv.step c.nv (.startup t)
+              let c := branch c s!"nv-startup/st={t}/saved={c.nv.saved.isSome}/rc={nobs.rc}"
+              let c := if nobs.rc ≠ obs.rc then mism c s!"internal: the two models disagree on Startup: core={obs.rc} nv={nobs.rc}" else c
+              { c with nv := nv' }
+          | _ => if op.isOrdinal then { c with nv := (Nv.step c.nv .other).1 } else c
         let c := branch c (opBranch l obs.rc)
         let name := l.str "name"
         let c := if l.nat "ret" ≠ 0 then mism c s!"{name}: TPMLIB_Process returned {l.nat "ret"}" else c
